@@ -34,4 +34,88 @@ theorem checkGreedyOut_iff (tol : Rat) (n bound : Nat) (idx : List Nat) (ws : Li
     checkGreedyOut tol n bound idx ws = true ↔ GreedyOutSpec tol n bound idx ws := by
   simp [checkGreedyOut, GreedyOutSpec, and_assoc]
 
+/-! ### histories on one selector object -/
+
+/-- the TopK clause of the property for a history of calls on ONE selector object: as many answers as
+calls, each of them the `min k n` lowest-loss members of the candidates of its own call -/
+def TopKHistorySpec (k : Nat) (lossess : List (List Rat)) (outs : List (List Nat × List Rat)) : Prop :=
+  lossess.length = outs.length ∧
+  ∀ p ∈ lossess.zip outs, TopKSpec p.1.length (fun i => p.1.getD i 0) k p.2.1 p.2.2
+
+theorem checkTopKHistory_iff (k : Nat) (ls : List (List Rat)) (os : List (List Nat × List Rat)) :
+    checkTopKHistory k ls os = true ↔ TopKHistorySpec k ls os := by
+  induction ls generalizing os with
+  | nil => cases os <;> simp [checkTopKHistory, TopKHistorySpec]
+  | cons l ls ih =>
+    cases os with
+    | nil => simp [checkTopKHistory, TopKHistorySpec]
+    | cons o os =>
+      simp only [checkTopKHistory, Bool.and_eq_true, checkTopK_iff, ih, TopKHistorySpec,
+        List.length_cons, List.zip_cons_cons, List.mem_cons]
+      constructor
+      · rintro ⟨h1, h2, h3⟩
+        refine ⟨by omega, fun p hp => ?_⟩
+        rcases hp with rfl | hp
+        · exact h1
+        · exact h3 p hp
+      · rintro ⟨h1, h2⟩
+        exact ⟨h2 _ (Or.inl rfl), by omega, fun p hp => h2 p (Or.inr hp)⟩
+
+theorem topKHistory_length (k : Nat) (cs : List TopKCall) : (topKHistory k cs).length = cs.length := by
+  induction cs with
+  | nil => rfl
+  | cons c cs ih => simp [topKHistory, ih]
+
+theorem topKHistory_append (k : Nat) (pre post : List TopKCall) :
+    topKHistory k (pre ++ post) = topKHistory k pre ++ topKHistory k post := by
+  induction pre with
+  | nil => rfl
+  | cons c cs ih => simp [topKHistory, ih]
+
+theorem topKHistory_zip (k : Nat) (cs : List TopKCall) :
+    ∀ p ∈ cs.zip (topKHistory k cs), p.2 = topK p.1.order k := by
+  induction cs with
+  | nil => simp [topKHistory]
+  | cons c cs ih =>
+    intro p hp
+    simp only [topKHistory, List.zip_cons_cons, List.mem_cons] at hp
+    rcases hp with rfl | hp
+    · rfl
+    · exact ih p hp
+
+theorem topKHistory_spec (k : Nat) (cs : List TopKCall)
+    (h : ∀ c ∈ cs, OrderOK c.losses.length (fun i => c.losses.getD i 0) c.order) :
+    TopKHistorySpec k (cs.map (·.losses)) (topKHistory k cs) := by
+  induction cs with
+  | nil => exact ⟨rfl, by simp [topKHistory]⟩
+  | cons c cs ih =>
+    obtain ⟨h1, h2⟩ := ih (fun c' hc' => h c' (List.mem_cons_of_mem _ hc'))
+    refine ⟨by simp [topKHistory, topKHistory_length], fun p hp => ?_⟩
+    simp only [topKHistory, List.map_cons, List.zip_cons_cons, List.mem_cons] at hp
+    rcases hp with rfl | hp
+    · exact topK_spec (h c (List.mem_cons_self ..)) k
+    · exact h2 p hp
+
+theorem greedyHistory_length (o : Opts) (cs : List GreedyCall) : (greedyHistory o cs).length = cs.length := by
+  induction cs with
+  | nil => rfl
+  | cons c cs ih => simp [greedyHistory, ih]
+
+theorem greedyHistory_append (o : Opts) (pre post : List GreedyCall) :
+    greedyHistory o (pre ++ post) = greedyHistory o pre ++ greedyHistory o post := by
+  induction pre with
+  | nil => rfl
+  | cons c cs ih => simp [greedyHistory, ih]
+
+theorem greedyHistory_zip (o : Opts) (cs : List GreedyCall) :
+    ∀ p ∈ cs.zip (greedyHistory o cs), p.2 = greedy o p.1.n p.1.order p.1.L0 p.1.L p.1.bags p.1.fuel := by
+  induction cs with
+  | nil => simp [greedyHistory]
+  | cons c cs ih =>
+    intro p hp
+    simp only [greedyHistory, List.zip_cons_cons, List.mem_cons] at hp
+    rcases hp with rfl | hp
+    · rfl
+    · exact ih p hp
+
 end DH.Select
